@@ -151,14 +151,21 @@ func deadScenario(c deadCase, bound int) *vx.Scenario {
 }
 
 func judgeDead(c deadCase, p *pair) vx.Result {
+	return judgeDeadWith(c.C, c.dir(), c.Flavour+" at "+c.where(), "", c.runLen(), p)
+}
+
+// judgeDeadWith is the dead-peer oracle: cfg the heartbeat configuration, dir which directions died, where a
+// description of the fault position (message only), situation a suffix of every violation key that names the
+// situation the connection was in when the link died ("" = an established polling connection).
+func judgeDeadWith(cfg itCfg, dir, where, situation string, runLen time.Duration, p *pair) vx.Result {
 	var r vx.Result
-	I, T := c.C.I, c.C.T
+	I, T := cfg.I, cfg.T
 	bound := p.tbh + I + T
 	lastPong, lastPing := last(p.srvPongAt), last(p.cliPingAt)
 	r.Outcome = fmt.Sprintf("t_bh=%v srv=%s cli=%s", p.tbh, closes(p.srvClose), closes(p.cliClose))
-	ctx := fmt.Sprintf("%v, %s at %s: link black-holed at t_bh=%v (%s); %d pongs reached the server (last at %v), %d pings reached the client (last at %v), CLOSE packets reached the server at %v; server OnClose %s, client OnClose %s; bound t_bh+I+T=%v; run observed until %v",
-		c.C, c.Flavour, c.where(), p.tbh, c.dir(), len(p.srvPongAt), lastPong, len(p.cliPingAt), lastPing, p.srvCloseMsgAt, closes(p.srvClose), closes(p.cliClose), bound, c.runLen())
-	key := func(side, what string) string { return side + ": " + what + " (" + c.dir() + ")" }
+	ctx := fmt.Sprintf("%v, %s: link black-holed at t_bh=%v (%s); %d pongs reached the server (last at %v), %d pings reached the client (last at %v), CLOSE packets reached the server at %v; server OnClose %s, client OnClose %s; bound t_bh+I+T=%v; run observed until %v; errors server=%v client=%v",
+		cfg, where, p.tbh, dir, len(p.srvPongAt), lastPong, len(p.cliPingAt), lastPing, p.srvCloseMsgAt, closes(p.srvClose), closes(p.cliClose), bound, runLen, p.srvErrs, p.cliErrs)
+	key := func(side, what string) string { return side + ": " + what + " (" + dir + ")" + situation }
 
 	side := func(name string, cl []closeEv, lastHB time.Duration, reasonOK func(closeEv) bool) {
 		if len(cl) == 0 {
@@ -180,7 +187,7 @@ func judgeDead(c deadCase, p *pair) vx.Result {
 		if ev.Reason == "ping timeout" {
 			return true
 		}
-		if ev.Reason == "transport close" && c.dir() == dirResponses {
+		if ev.Reason == "transport close" && dir == dirResponses {
 			for _, t := range p.srvCloseMsgAt {
 				if t <= ev.At {
 					return true // the client gave up first and its CLOSE packet got through
